@@ -147,6 +147,26 @@ func PayloadHash(d *engine.ExecutableData, beaconRoot common.Hash, requests [][]
 		h.Write([]byte{0xfe})
 		h.Write(t)
 	}
+	// a real block hash covers EVERY header field: whatever the application changes between receiving a payload and telling
+	// the engine about it shows up as another block
+	h.Write(d.StateRoot[:])
+	h.Write(d.ReceiptsRoot[:])
+	h.Write(d.LogsBloom)
+	binary.BigEndian.PutUint64(b[:], d.GasLimit)
+	h.Write(b[:])
+	binary.BigEndian.PutUint64(b[:], d.GasUsed)
+	h.Write(b[:])
+	if d.BaseFeePerGas != nil {
+		h.Write(d.BaseFeePerGas.Bytes())
+	}
+	for _, x := range []*uint64{d.BlobGasUsed, d.ExcessBlobGas} {
+		v := uint64(0)
+		if x != nil {
+			v = *x
+		}
+		binary.BigEndian.PutUint64(b[:], v)
+		h.Write(b[:])
+	}
 	h.Write(beaconRoot[:])
 	for _, r := range requests {
 		h.Write([]byte{0xfd})
